@@ -107,7 +107,7 @@ def handle : List String → Option String
       let x : Ctx :=
         if variant = 2 then
           { K := K, c := c, n := n,
-            comp := fun sel maxit tol sort s => computeCS op (Arnoldi.rowMajorOp n p) c eps23 sigmar sigmai eps sel maxit tol sort s,
+            comp := fun sel maxit tol sort s => computeCS op (Arnoldi.rowMajorOp n p) c eps23 sigmar sigmai sel maxit tol sort s,
             extra := " shiftr=e:" ++ fbits (probeShift sigmar) }
         else { K := K, c := c, n := n, comp := fun sel maxit tol sort s => Orch.compute K c sel maxit tol sort s, extra := "" }
       let s0 : GSt := Orch.construct (Arnoldi.State.mk0 n ncv near0 eps)
